@@ -204,10 +204,77 @@ pub struct PProblem {
     pub has_clustering: bool,
     pub hard_order: bool,
     pub dims: usize,
+    pub locmap: LocMap,
 }
 
-fn loc_index(v: &Value) -> Result<usize, String> {
-    v.get("index").and_then(|i| i.as_u64()).map(|i| i as usize).ok_or_else(|| format!("O1 supports index locations only, got {v}"))
+/// Location -> matrix index: identity for index references; for coordinates the documented order of first appearance
+/// (jobs: pickups, deliveries, replacements, services; then fleet: per shift start, end, break places, reloads, recharges).
+#[derive(Clone, Debug, Default)]
+pub struct LocMap {
+    coords: HashMap<String, usize>,
+}
+
+fn coord_key(v: &Value) -> Option<String> {
+    Some(format!("{:?},{:?}", v.get("lat")?.as_f64()?, v.get("lng")?.as_f64()?))
+}
+
+impl LocMap {
+    fn add(&mut self, v: &Value) {
+        if let Some(k) = coord_key(v) {
+            let n = self.coords.len();
+            self.coords.entry(k).or_insert(n);
+        }
+    }
+
+    pub fn build(problem: &Value) -> LocMap {
+        let mut lm = LocMap::default();
+        for j in problem["plan"]["jobs"].as_array().into_iter().flatten() {
+            for key in ["pickups", "deliveries", "replacements", "services"] {
+                for t in j.get(key).and_then(|a| a.as_array()).into_iter().flatten() {
+                    for p in t["places"].as_array().into_iter().flatten() {
+                        lm.add(&p["location"]);
+                    }
+                }
+            }
+        }
+        for v in problem["fleet"]["vehicles"].as_array().into_iter().flatten() {
+            for s in v["shifts"].as_array().into_iter().flatten() {
+                lm.add(&s["start"]["location"]);
+                if let Some(e) = s.get("end") {
+                    lm.add(&e["location"]);
+                }
+                for b in s.get("breaks").and_then(|b| b.as_array()).into_iter().flatten() {
+                    for p in b.get("places").and_then(|p| p.as_array()).into_iter().flatten() {
+                        if let Some(l) = p.get("location") {
+                            lm.add(l);
+                        }
+                    }
+                }
+                for r in s.get("reloads").and_then(|b| b.as_array()).into_iter().flatten() {
+                    lm.add(&r["location"]);
+                }
+                for st in s.get("recharges").and_then(|r| r.get("stations")).and_then(|b| b.as_array()).into_iter().flatten() {
+                    lm.add(&st["location"]);
+                }
+            }
+        }
+        lm
+    }
+
+    pub fn get(&self, v: &Value) -> Result<usize, String> {
+        if let Some(i) = v.get("index").and_then(|i| i.as_u64()) {
+            return Ok(i as usize);
+        }
+        coord_key(v).and_then(|k| self.coords.get(&k).copied()).ok_or_else(|| format!("location {v} is not a known location of the problem"))
+    }
+
+    pub fn len(&self) -> usize {
+        self.coords.len()
+    }
+
+    pub fn is_empty(&self) -> bool {
+        self.coords.is_empty()
+    }
 }
 
 fn parse_windows(v: Option<&Value>) -> Result<Vec<(i64, i64)>, String> {
@@ -237,6 +304,8 @@ fn objectives_contain(objs: &Value, name: &str) -> bool {
 
 impl PProblem {
     pub fn parse(problem: &Value, matrices: &[Value]) -> Result<PProblem, String> {
+        let locmap = LocMap::build(problem);
+        let loc_index = |v: &Value| locmap.get(v);
         let mut jobs = Vec::new();
         let mut any_order = false;
         let mut dims = 1;
@@ -403,6 +472,7 @@ impl PProblem {
             has_clustering: problem["plan"].get("clustering").is_some_and(|c| !c.is_null()),
             hard_order: any_order && !has_order_objective,
             dims,
+            locmap: locmap.clone(),
         })
     }
 
@@ -706,7 +776,7 @@ fn replay_tour(
             t = st_dep as f64;
             continue;
         };
-        let loc = loc_index(loc_v)?;
+        let loc = p.locmap.get(loc_v)?;
         if sidx == 0 {
             if loc != shift.start_loc {
                 rep.issue("C01", "shift-start-location", format!("tour {ti} starts at location {loc}, shift start is {}", shift.start_loc));
@@ -771,7 +841,7 @@ fn replay_tour(
             let ty = act["type"].as_str().ok_or("activity.type")?;
             let job_id = act["jobId"].as_str().ok_or("activity.jobId")?;
             let a_loc = match act.get("location") {
-                Some(l) if !l.is_null() => loc_index(l)?,
+                Some(l) if !l.is_null() => p.locmap.get(l)?,
                 _ => loc,
             };
             let tag = act.get("jobTag").and_then(|t| t.as_str());
